@@ -54,7 +54,7 @@ def check(case: Dict[str, Any]) -> CaseInfo:
             if len(combo) >= 2:
                 overlap_seen = True
         busy_total += union_measure([iv for t in analysed for iv in typed[t]])
-    got_types = {str(r["kernel_type"]): int(r["sum"]) for _, r in type_df.iterrows() if r["sum"] != 0}
+    got_types = {str(r["kernel_type"]): float(r["sum"]) for _, r in type_df.iterrows() if r["sum"] != 0}
     require(all(r["sum"] >= 0 for _, r in type_df.iterrows()), "type:nonneg", lambda: type_df.to_string())
     require(got_types == exp_types, "type:combination_times", lambda: f"expected {exp_types}, got {got_types}")
     require(sum(got_types.values()) == busy_total, "type:sum_is_union", lambda: f"{got_types} vs union {busy_total}")
@@ -121,7 +121,7 @@ def check(case: Dict[str, Any]) -> CaseInfo:
 
 @st.composite
 def c05_case(draw):
-    case = draw(interval_case(weights=(6, 3, 3, 1), min_n=2))
+    case = draw(interval_case(weights=(6, 3, 3, 1), min_n=2, unrounded=True))
     case["params"] = {
         "num_kernels": draw(st.integers(1, 6)),
         "ratio": draw(st.one_of(st.sampled_from([0.1, 0.25, 0.5, 0.8, 0.9, 1.0]),
